@@ -24,7 +24,8 @@ CHECKS = {
           "Throw<-RunExn.1, Operator<-Op.0, Row<-the row counter, context = (Op.0, Op.1, Op.2) in order); every terminal "
           "transition inserts its Final/Failure/Throw entry, marks the run ended and produces a row; the row counter is "
           "incremented exactly when a row is returned (consecutive numbering); the next state is the transition just "
-          "computed, stored before every return. Quantifies over every step of every execution, which sampled traces cannot.",
+          "computed, stored before every return; every operator row is handed its own arguments (never None, so no entry of an "
+          "earlier operator survives in the pending row). Quantifies over every step of every execution, which sampled traces cannot.",
   "note": "NOT decided (value-level): that reported values equal the consensus evaluator's (that is C06's undecided part), "
           "cldb_hierarchy's grouping by function, hex-supplied vs source-form equivalence. Breaking a decided clause breaks "
           "the property; satisfying them does not establish it. One known finding (F20: rows of apply report the next "
@@ -72,7 +73,8 @@ CHECKS = {
           "returning only errors; reader limit = writer's last threshold; literal classes mirror; pairs written marker-first-"
           "rest; every chunk the serialising iterator yields is the checked table's result, a replayed payload of the "
           "allocator's own atom bytes, or the constant pair marker (no second, unchecked atom encoder); each chunk is written to "
-          "the stream in the iteration that produced it; the reader accepts no wider length prefix than clvmr's. Decides these structural "
+          "the stream in the iteration that produced it; the reader accepts no wider length prefix than clvmr's; the reader singles out no first-byte value the writer does not emit as such "
+          "and any second table of size classes in the module uses the writer's boundaries only (R08.h); reads may go through typed, length-checked wrappers. Decides these structural "
           "clauses for every atom length at once (tests only sample lengths).",
   "note": "Not decided: byte-identity with clvmr::serde for all atoms and acceptance-set equality with the consensus "
           "deserialiser. A table-driven rewrite of the writer is reported as anchor-lost (accepted cost, stated in DESIGN).",
@@ -137,12 +139,14 @@ CHECKS = {
           "entry points, or listed with a reviewed reason; the same lattice for B-trees keyed by tree digests (history "
           "channel through the fresh-name counter; found F1, fixed); inventory of interior-mutable globals; who-may-touch "
           "the counter and the int-mode thread-local; RAII typestate of the int-mode guard; no ambient inputs reachable "
-          "from compile entry points. A finite set of runs cannot observe these channels (seeds agree, counters start at 0).",
+          "from compile entry points; no ordering comparison (cmp / < / sort / partition_point) on a binding- or function-name field "
+          "that can hold a generated name (R05.i). A finite set of runs cannot observe these channels (seeds agree, counters start at 0).",
   "note": "Trusts rustc MIR/Freeze, the order-taint classifier (self-tested both ways) and tables/hash_order.json (8 reviewed "
           "lines; the de-inlining hill climb's hash order was a genuine defect, F16, and a reviewed line for the classic symbol "
           "dump was wrong, F21 - both fixed). One known finding (F17: generated names "
           "in the symbol table). Does not decide that emitted code contains no "
-          "generated names, nor ordering by generated *names* (only by digests).",
+          "generated names; ordering by generated names is decided only for the name fields of bindings and functions (R05.i), "
+          "not for arbitrary atoms.",
   "technique": "MIR order-taint analysis (type-driven sources, loop/closure effect classification) + typestate + who-may-call + reviewed table",
   "design": "3.1",
  },
@@ -152,7 +156,9 @@ CHECKS = {
           "edges classified), who-may-read, first-match shape of the resolver loop, and the listing's only filter "
           "being the `*` pseudo-file predicate, recorder and consumer resolving a name through the same reader, every success "
           "return of the listing passing through the frontend, and the "
-          "classic reader's search list being built in search-path order. Found F2 (embed-file unlisted), repaired by a fix: commit.",
+          "classic reader's search list being built in search-path order; no locally created include vector is lent to a recorder and "
+          "then dropped (R18.e); set_search_paths stores the list it is given without filtering or reordering (R18.a.store). "
+          "Found F2 (embed-file unlisted), repaired by a fix: commit.",
   "note": "Scope: the modern preprocessor (all dialect sigils and the listing itself) plus the order of the classic search list. "
           "The classic `_read` operator's own resolution loop is CLVM data (stage_2 reader is Rust: first-match walk not decided). Trusts rustc MIR construction; value flow is local-level.",
   "technique": "MIR pairing/dominance rules + value flow + who-may-call",
